@@ -165,6 +165,7 @@ impl<D: DataT, E: FromBoxError> MultipartStream<D, E> {
             /*@C20 #terminal_stays*/ old(self).terminal() ==> r matches Poll::Ready(None),
             /*@C06 #order*/ final(self).state >= old(self).state
                 && (!(r matches Poll::Ready(Some(Err(_)))) ==> final(self).state <= old(self).state + 2)
+                && ((r matches Poll::Pending || r matches Poll::Ready(None)) ==> final(self).state == old(self).state)
                 && ((r matches Poll::Pending) ==> final(self).state % 2 == 1),
             /*@C06,C02 #frame_identity*/ r matches Poll::Ready(Some(Ok(d))) ==> {
                 let n = old(self).ranges@.len();
@@ -363,6 +364,76 @@ pub proof fn lemma_accounting_trace<D: Buf, E>(rem0: u64, t: Seq<Step<D, E>>)
             if no_error(t) { assert forall|i: int| 0 <= i < t.drop_last().len() implies !(#[trigger] t.drop_last()[i].out matches Poll::Ready(Some(Err(_)))) by { assert(t.drop_last()[i] == t[i]); } }
         }
         if t.len() >= 2 { assert(t.drop_last().last() == t[t.len() - 2]); }
+    }
+}
+//@endlemma
+
+
+// ---- C06: frames come out in request order and none is skipped ----
+/// What one poll of a MultipartStream emitted, as pinned down by #order / #frame_identity.
+pub enum FrameKind { Header(int), Chunk(int), Trailer, Nothing }
+pub struct MStep { pub s0: int, pub s1: int, pub kind: FrameKind }
+/// The per-call contract of MultipartStream::poll_next for error-free calls, on (state before, state after, frame kind).
+pub open spec fn mstep_ok(n: int, st: MStep) -> bool {
+    &&& 0 <= st.s0 <= st.s1 <= 2 * n + 1 && st.s1 <= st.s0 + 2
+    &&& match st.kind {
+        FrameKind::Trailer => st.s1 == 2 * n + 1 && st.s0 < st.s1,
+        FrameKind::Header(i) => st.s1 % 2 == 1 && st.s1 / 2 == i && i < n && st.s0 < st.s1,
+        FrameKind::Chunk(i) => st.s1 == st.s0 && st.s1 % 2 == 1 && st.s1 / 2 == i && i < n,
+        FrameKind::Nothing => st.s1 == st.s0,
+    }
+}
+pub open spec fn mtrace_ok(n: int, t: Seq<MStep>) -> bool {
+    &&& forall|j: int| 0 <= j < t.len() ==> mstep_ok(n, #[trigger] t[j])
+    &&& (t.len() > 0 ==> t[0].s0 == 0)
+    &&& forall|j: int| 0 < j < t.len() ==> (#[trigger] t[j]).s0 == t[j - 1].s1
+}
+/// Number of header-kind frames (part headers and the trailer) emitted once the state is s.
+pub open spec fn hdrs_emitted(s: int) -> int { (s + 1) / 2 }
+
+//@lemma props=C06 lemma_contract_gives_mstep
+/// The clauses #order and #frame_identity of MultipartStream::poll_next, read on (state before, state after), are exactly
+/// one `mstep_ok` step - this ties the real contract to the history lemma below.
+proof fn lemma_contract_gives_mstep(n: int, s0: int, s1: int, cur1_some: bool, is_ok: bool, is_pending_or_end: bool, is_trailer: bool)
+    requires
+        0 <= s0 <= 2 * n + 1, 0 <= s1 <= 2 * n + 1,
+        // #order (error-free call)
+        s1 >= s0, s1 <= s0 + 2, is_pending_or_end ==> s1 == s0,
+        // #frame_identity, first components of its three disjuncts
+        is_ok ==> ((s1 == 2 * n + 1 && s0 < s1 && is_trailer) || (s1 % 2 == 1 && s1 / 2 < n && !cur1_some && s0 < s1 && !is_trailer) || (s1 % 2 == 1 && s1 / 2 < n && cur1_some && s1 == s0 && !is_trailer)),
+        is_ok != is_pending_or_end,
+    ensures /*@C06 #contract_is_a_step*/ exists|k: FrameKind| mstep_ok(n, MStep { s0, s1, kind: k }),
+{
+    if is_pending_or_end { assert(mstep_ok(n, MStep { s0, s1, kind: FrameKind::Nothing })); }
+    else if is_trailer { assert(mstep_ok(n, MStep { s0, s1, kind: FrameKind::Trailer })); }
+    else if cur1_some { assert(mstep_ok(n, MStep { s0, s1, kind: FrameKind::Chunk(s1 / 2) })); }
+    else { assert(mstep_ok(n, MStep { s0, s1, kind: FrameKind::Header(s1 / 2) })); }
+}
+//@endlemma
+
+//@lemma props=C06 lemma_multipart_order
+/// For every error-free history of polls from the initial state: the k-th header-kind frame is the header of part k
+/// (k < n) or, for k = n, the trailer - so part headers come in request order, none is skipped or repeated - and every data
+/// chunk of part i is emitted after header i and before header i+1.  If the history reaches the end state, all n
+/// headers and the trailer have been emitted.
+proof fn lemma_multipart_order(n: int, t: Seq<MStep>)
+    requires n >= 0, mtrace_ok(n, t)
+    ensures
+        /*@C06 #headers_in_request_order*/ forall|j: int| 0 <= j < t.len() ==> (match (#[trigger] t[j]).kind {
+            FrameKind::Header(i) => i == hdrs_emitted(t[j].s0) && hdrs_emitted(t[j].s1) == i + 1,
+            FrameKind::Trailer => hdrs_emitted(t[j].s0) == n && hdrs_emitted(t[j].s1) == n + 1,
+            FrameKind::Chunk(i) => hdrs_emitted(t[j].s0) == i + 1 && hdrs_emitted(t[j].s1) == i + 1,
+            FrameKind::Nothing => hdrs_emitted(t[j].s1) == hdrs_emitted(t[j].s0),
+        }),
+        /*@C06 #complete_at_end*/ (t.len() > 0 && t.last().s1 == 2 * n + 1) ==> hdrs_emitted(t.last().s1) == n + 1,
+{
+    assert forall|j: int| 0 <= j < t.len() implies (match (#[trigger] t[j]).kind {
+            FrameKind::Header(i) => i == hdrs_emitted(t[j].s0) && hdrs_emitted(t[j].s1) == i + 1,
+            FrameKind::Trailer => hdrs_emitted(t[j].s0) == n && hdrs_emitted(t[j].s1) == n + 1,
+            FrameKind::Chunk(i) => hdrs_emitted(t[j].s0) == i + 1 && hdrs_emitted(t[j].s1) == i + 1,
+            FrameKind::Nothing => hdrs_emitted(t[j].s1) == hdrs_emitted(t[j].s0),
+        }) by {
+        assert(mstep_ok(n, t[j]));
     }
 }
 //@endlemma
